@@ -79,6 +79,8 @@ func checkC10(c *Ctx, r *Report) {
 	} else {
 		r.Fatalf("%v", err)
 	}
+	effectsPositiveControls(c, r)
+	r.Floor("positive_controls", 5)
 	r.Floor("api_entry_points_amd64", 25)
 	r.Floor("param_obligations_amd64", 60)
 	r.Floor("append_contracts_amd64", 3)
